@@ -223,6 +223,12 @@ def run_history(task):
     import uberjob
 
     scn = task["scn"]
+    try:
+        from uberjob._util import validation as _val
+
+        _val.try_get_signature.cache_clear()  # see engine_exec.execute
+    except Exception:
+        pass
     U = CS.Universe(scn)
     U.id_of_node = {nd: i for i, nd in U.node.items()}
     for i, nd in U.node.items():
